@@ -51,7 +51,7 @@ Fixpoint plainf (names : list string) (s : stmt) : bool :=
 Fixpoint lnames_stmt (s : stmt) : list string :=
   match s with
   | LocalLabel n => [n]
-  | Repeat _ body | Include _ body =>
+  | Repeat _ body | Include _ _ body =>
       (fix go (l : list stmt) : list string := match l with [] => [] | x :: r => lnames_stmt x ++ go r end) body
   | _ => []
   end.
@@ -73,7 +73,7 @@ Fixpoint nodot (e : expr) : bool :=
 Fixpoint nodef (n : string) (s : stmt) : bool :=
   match s with
   | Label m | Assign m _ => negb (String.eqb m n)
-  | Repeat _ body | Include _ body =>
+  | Repeat _ body | Include _ _ body =>
       (fix go (l : list stmt) : bool := match l with [] => true | x :: r => nodef n x && go r end) body
   | _ => true
   end.
@@ -127,6 +127,18 @@ Definition apply_law (l : law) (p : program) : option program :=
                               | Insert (b :: bs) => Some [Byte (map bytelit (b :: bs))]
                               | _ => None end) p
   | LCut k => Some (firstn k p ++ End :: skipn k p)
+  end.
+
+(* ---- several files given to the linker (compile_and_link_files): the first file up to its End, then every further
+   file as a block with its own names that shares the link base ------------------------------------------------- *)
+Definition link (f1 : program) (rest : list (nat * program)) : program :=
+  cut_end f1 ++ map (fun fb => Include false (fst fb) (snd fb)) rest.
+
+(* the two programs a law relates: for LCut the program with the End put in and the program cut there *)
+Definition law_pair (l : law) (p : program) : option (program * program) :=
+  match apply_law l p with
+  | Some tp => Some (match l with LCut _ => tp | _ => p end, match l with LCut k => firstn k p ++ [End] | _ => tp end)
+  | None => None
   end.
 
 (* the hypotheses of the laws, as the theorems state them *)
@@ -191,9 +203,9 @@ Fixpoint sup_stmt (D : list defn) (f : nat) (inrep ininc : bool) (s : stmt) : bo
   | End => false
   | Repeat ce body =>
       lt_ok D f ce && (fix go (l : list stmt) : bool := match l with [] => true | x :: r => sup_stmt D f true ininc x && go r end) body
-  | Include fid body =>
+  | Include own fid body =>
       negb inrep && (fix go (l : list stmt) : bool :=
-                       match l with [] => true | End :: _ => true | x :: r => sup_stmt D fid false true x && go r end) body
+                       match l with [] => true | End :: _ => true | x :: r => sup_stmt D fid false (own || ininc) x && go r end) body
   | _ => true
   end.
 
@@ -201,5 +213,22 @@ Definition supported (p : program) : bool :=
   let q := cut_end p in
   let D := collect_defs 0 0 q in
   nodup_nat (0%nat :: file_ids q)
-  && match first_base q with Some e => lt_ok D 0 e && nodot e | None => true end
+  && match first_base 0 q with Some (f, e) => lt_ok D f e && nodot e | None => true end
   && forallb (sup_stmt D 0 false false) q.
+
+(* ---- "the same outcome", as a boolean (Proofs/AsmMove.same_outcome) -------------------------------------- *)
+Fixpoint zlist_eqb (a b : list Z) : bool :=
+  match a, b with [], [] => true | x :: xs, y :: ys => (x =? y) && zlist_eqb xs ys | _, _ => false end.
+
+Definition look_sub (T T' : symtab) : bool :=
+  forallb (fun kv => match klookup (fst kv) T, klookup (fst kv) T' with
+                     | Some a, Some b => a =? b | _, _ => false end) T.
+
+(* same_outcome of Proofs/AsmMove.v, as a boolean *)
+Definition res_same (r r' : (xres (Z * list Z * symtab))) : bool :=
+  match r, r' with
+  | XOk (b, i, T), XOk (b', i', T') => (b =? b') && zlist_eqb i i' && look_sub T T' && look_sub T' T
+  | XOk _, _ | _, XOk _ => false
+  | _, _ => true
+  end.
+
